@@ -92,6 +92,10 @@ impl Prop for C09 {
         let npass = if th { 400 } else { 70 };
         for i in 0..npass { v.push(case(&[("surface", "passfile".into()), ("how", "mut".into()), ("m", (i % 7).to_string()), ("seed", rng.next().to_string())])); }
         for cut in (0..=84usize).step_by(if th { 1 } else { 4 }) { v.push(case(&[("surface", "passfile".into()), ("how", "prefix".into()), ("cut", cut.to_string()), ("seed", "7".into())])); }
+        // authentic handshake messages (both tags verify) whose payload is not 32 bytes: no honest writer produces them, any Noise peer can
+        for pl in [0usize, 1, 16, 31, 33, 48, 64, 100, 1000, 65535 - 96 - 16, 65535 - 96 - 15] { for _ in 0..(if th { 4 } else { 1 }) { v.push(case(&[("surface", "noise".into()), ("len", pl.to_string()), ("mode", "authentic-payload-len".into()), ("seed", rng.next().to_string())])); } }
+        // keyring files: valid sections with stray lines of every length 0..160 built from 1-, 2-, 3- and 4-byte characters
+        for l in 0..=160usize { for _ in 0..(if th { 6 } else { 2 }) { v.push(case(&[("surface", "keyring".into()), ("len", l.to_string()), ("seed", rng.next().to_string())])); } }
         for _ in 0..(if th { 6000 } else { 1200 }) { v.push(case(&[("surface", "pkstr".into()), ("seed", rng.next().to_string())])); }
         for _ in 0..(if th { 1500 } else { 300 }) { v.push(case(&[("surface", "skstr".into()), ("seed", rng.next().to_string())])); }
         // CLI argument vectors: every vector of length <= 2 (thorough: a sample of length 3) over the vocabulary, plus random longer ones
@@ -128,7 +132,10 @@ impl Prop for C09 {
                 let mode = get(c, "mode");
                 let (rk, pro) = (rng.bytes(32), vec![0x65u8, 0x67, 0x6b, 0x10]);
                 let rpk = crate::props::c01::pub_of(&rk);
-                let msg: Vec<u8> = if mode == "random" { rng.bytes(len) } else {
+                let msg: Vec<u8> = if mode == "random" { rng.bytes(len) } else if mode == "authentic-payload-len" {
+                    let s = rng.bytes(32); let e = rng.bytes(32); let pl = rng.bytes(len);
+                    crate::props::noisew::write_message(&pro, &rpk, &crate::props::noisew::Forge { e: &e, s_priv: &s, claimed_s: &crate::props::c01::pub_of(&s), ss: crate::props::noisew::Ss::Honest, payload: &pl }).0
+                } else {
                     // a genuine message to this recipient, cut / padded to `len`, or with one bit flipped
                     let s = rng.bytes(32); let e = rng.bytes(32); let pl = rng.bytes(32);
                     let h = kestrel_crypto::noise_encrypt(&imp::sk(&s), &imp::pk(&crate::props::c01::pub_of(&s)), &imp::pk(&rpk), Some(&imp::sk(&e)), Some(&imp::pk(&crate::props::c01::pub_of(&e))), &pro, &kestrel_crypto::PayloadKey::new(&pl)).unwrap();
@@ -146,6 +153,22 @@ impl Prop for C09 {
                 o.nontrivial = Some(format!("noise/{}/{}/{}", msg.len(), mode, o.impl_obs));
                 if r.is_none() { fail_crash(&mut o, &format!("noise_decrypt ({}-byte handshake message)", msg.len())); }
                 else if o.impl_obs != o.model_obs { o.disagreement = Some(format!("impl {} model {}", o.impl_obs, o.model_obs)); }
+            }
+            "keyring" => {
+                // one or two well-formed sections and a stray line of `len` bytes (after trimming) somewhere among them
+                let len = getn(c, "len");
+                let atoms: [&str; 14] = ["a", "Z", "9", " ", "=", "-", ":", "\u{e9}", "\u{fc}", "\u{20ac}", "\u{4e2d}", "\u{1f600}", "\u{1f511}", "x"];
+                let mut junk = String::new();
+                while junk.len() < len { let a = atoms[rng.below(atoms.len())]; if junk.len() + a.len() <= len { junk.push_str(a); } else { junk.push('y'); } }
+                if rng.chance(1, 3) && !junk.is_empty() { junk = format!("{}{}", *rng.pick(&["Note", "name", "Key", "Bob: ", "Public Key", "[key]", "PrivateKey", "Name"]), junk); }
+                let sec = |n: &str, k: u8| format!("[Key]\nName = {}\nPublicKey = {}\n", n, crate::props::c17::enc_pk(&[k; 32]));
+                let text = match rng.below(4) { 0 => format!("{}\n{}\n{}", sec("alice", 1), junk, sec("bob", 2)), 1 => format!("{}\n{}", junk, sec("alice", 1)), 2 => format!("{}{}\n", sec("alice", 1), junk), _ => format!("[Key]\nName = alice\n{}\nPublicKey = {}\n", junk, crate::props::c17::enc_pk(&[1; 32])) };
+                let r = crate::props::c17::rust_parse(&text);
+                let mr = m.ask(&format!("parse_keyring {}", hexd(text.as_bytes()))); o.validated += 1;
+                o.impl_obs = r.chars().take(60).collect(); o.model_obs = mr.chars().take(60).collect();
+                o.nontrivial = Some(format!("keyring/{}/{}", junk.len(), get(c, "seed"))); o.tags.push(format!("keyring stray line -> {}", r.split(' ').next().unwrap_or("")));
+                if r == "crash" { fail_crash(&mut o, &format!("Keyring::new (a keyring with the stray line {:?}, {} bytes)", junk, junk.len())); }
+                else if r != mr { o.disagreement = Some(format!("Keyring::new and the model differ on {:?}", text)); }
             }
             "keyfile" | "passfile" => {
                 let keym = surface == "keyfile";
